@@ -116,6 +116,15 @@ def build(mn, fms):
     return text, vars_, expect, needs_base
 
 
+def forward_registers(text):
+    """'%{R1}' -> '%rn1' with 'rn1 = {R1}' defined AFTER the instruction (register number not known when the operand is encoded)."""
+    import re
+    names = re.findall(r"%\{(R\d)\}", text)
+    for n in names:
+        text = text.replace("%{" + n + "}", "%rn" + n[1])
+    return text + "".join(f"rn{n[1]} = {{{n}}}\n" for n in dict.fromkeys(names))
+
+
 def expected_after_alias(mn, expect):
     """Operand list the decoder must report, after expanding alias mnemonics."""
     isa = _isa()
@@ -223,6 +232,8 @@ def h_insn(params, vals, ctx):
     mn, fms = params["mn"], params["forms"]
     text, vars_, expect, needs_base = build(mn, fms)
     check_pre(vals, expect, needs_base)
+    if params.get("fwdreg"):
+        text = forward_registers(text)
     o = assemble([("a.mac", text)], vals, route=ctx.route)
     ctx.observe_outcome(o)
     ctx.reach(o.status == "ok")
@@ -311,6 +322,14 @@ def obligations(tier, seed):
     for a in F.SYMBOLIC_FORMS:
         for b in F.SYMBOLIC_FORMS:
             add("mov", [a, b])
+    # register numbers given by a symbol that is defined after the instruction
+    for f in [x for x in F.SYMBOLIC_FORMS if F.uses(x)[0]]:
+        for mn, fms in (("clr", [f]), ("mov", [f, "imm"]), ("mov", ["abs", f]), ("jsr", ["reg", f]), ("mul", [f, "reg"]), ("ldf", [f, "ac1"]), ("stf", ["ac2", f])):
+            if mn in ("ldf", "stf") and f == "reg":
+                continue
+            ob = _ob(mn, fms, tier, "/fwdreg")
+            ob.params["fwdreg"] = True
+            obs.append(ob)
     # synonyms: classes of the reference table + aliases with fixed operands
     for (base, fmt), names in sorted(isa.classes().items()):
         names = [n for n in names if n in real]
